@@ -5,7 +5,8 @@ Oracle (independent of uxarray): from the face-node table alone
   pairs(f)[j]    = frozenset{corners(f)[j], corners(f)[(j+1) mod npf(f)]}
   E*             = union of pairs(f) over all faces
 Checked on the real Grid (fresh grid per access order) and on the builder functions in uxarray.grid.connectivity.
-NUMBA JIT is left as configured by the driver (disabled by run_standin.py): njit builders run as plain Python.
+The main pass runs with numba JIT as configured by the driver (disabled by run_standin.py: njit builders run as plain Python);
+the catalogue part is repeated in a child process with JIT enabled.
 """
 import random
 
@@ -60,6 +61,9 @@ class _Rec:
         self.cases += 1
         if ok:
             return True
+        if clause.endswith(".dtype==intp"):
+            # the element type does not depend on the order of first access or on where the mesh came from
+            scenario = "builders" if scenario.startswith("builders") else "Grid"
         key = f"{clause}:{scenario}"
         if key not in self.keys:
             self.keys.add(key)
@@ -249,21 +253,15 @@ def _table_mesh(tab, n_node, idx):
             "closed": False, "n_node": n_node, "n_face": tab.shape[0]}
 
 
-def edges(tier, seed):
-    rng = random.Random(seed * 1000003 + 17)
-    rec = _Rec()
-    distinct = set()
-    samples = []
-
+def _catalogue_pass(rec, tier, seed, distinct):
     cat = mg.catalogue(tier, seed)
     for m in cat:
         distinct.add(("cat", m["faces"].tobytes(), m["faces"].shape))
         for order in ORDERS:
             check_grid(rec, f"{order}:catalogue", order, m)
         check_builders(rec, "builders:catalogue", m["name"], m["faces"])
-    samples += [{"mesh": m["name"], "n_face": m["n_face"], "n_node": m["n_node"]} for m in cat[:2]]
 
-    # a table with a completely padded last column and one where the widest row comes last / first
+    # the same meshes with two additional completely padded columns (n_max larger than the widest face)
     extra = []
     for m in cat[:14]:
         f = m["faces"]
@@ -283,6 +281,63 @@ def edges(tier, seed):
     pairs_ = [(cat[i], cat[(i * 7 + 3) % len(cat)]) for i in range(0, len(cat), 3 if tier == "quick" else 1)]
     for ma, mb in pairs_:
         check_interleaved(rec, "two_grids_interleaved:catalogue", ma, mb)
+    return cat, extra, pairs_
+
+
+def _jit_disabled():
+    # numba.config.DISABLE_JIT is overwritten by uxarray.grid.area at import time, so look at the builder itself
+    from uxarray.grid import connectivity as C
+    return not hasattr(C._build_n_nodes_per_face, "py_func")
+
+
+def _jit_entry(seed):
+    """run in a child process with NUMBA_DISABLE_JIT=0: the quick catalogue pass on the compiled builders"""
+    rec = _Rec()
+    _catalogue_pass(rec, "quick", seed, set())
+    return {"cases": rec.cases, "failures": rec.failures, "jit_disabled": _jit_disabled()}
+
+
+def _jit_start(seed):
+    """start the catalogue checks with numba JIT enabled in a child process (runs concurrently with the main pass)"""
+    import os
+    import subprocess
+    import sys
+    here = os.path.dirname(os.path.dirname(os.path.abspath(__file__)))
+    code = ("import sys, json, warnings; warnings.filterwarnings('ignore'); sys.path.insert(0, %r); "
+            "from standins import C02; print('\\n' + json.dumps(C02._jit_entry(%d)))" % (here, int(seed)))
+    env = dict(os.environ, NUMBA_DISABLE_JIT="0")
+    return subprocess.Popen([sys.executable, "-W", "ignore", "-c", code], env=env, stdout=subprocess.PIPE, stderr=subprocess.PIPE,
+                            text=True)
+
+
+def _jit_collect(rec, proc):
+    """merge the child's result; only failures whose key was not already seen in the main pass are added"""
+    import json
+    stdout, stderr = proc.communicate(timeout=900)
+    if proc.returncode != 0:
+        raise RuntimeError("C02 JIT child failed: " + stderr[-800:])
+    out = json.loads(stdout.strip().splitlines()[-1])
+    if out["jit_disabled"]:
+        raise RuntimeError("C02 JIT child ran with JIT disabled")
+    rec.cases += out["cases"]
+    for f in out["failures"]:
+        if f["key"] in rec.keys:
+            continue
+        f = dict(f)
+        f["key"] += ":jit_enabled"
+        if f["key"] not in rec.keys:
+            rec.keys.add(f["key"])
+            rec.failures.append(f)
+
+
+def _edges(tier, seed, child):
+    rng = random.Random(seed * 1000003 + 17)
+    rec = _Rec()
+    distinct = set()
+    samples = []
+
+    cat, extra, pairs_ = _catalogue_pass(rec, tier, seed, distinct)
+    samples += [{"mesh": m["name"], "n_face": m["n_face"], "n_node": m["n_node"]} for m in cat[:2]]
 
     # exhaustive small scope
     n_node = 5
@@ -300,17 +355,29 @@ def edges(tier, seed):
         distinct.add(("tab", tab.tobytes(), tab.shape))
         m = _table_mesh(tab, n_node, i)
         check_builders(rec, "builders:small_tables", m["name"], tab)
-        if tier == "thorough":
-            use = order_names[:3]
-        else:
-            use = order_names[:3]
-        for order in use:
+        for order in order_names[:3]:
             check_grid(rec, f"{order}:small_tables", order, m)
         if len(samples) < 3:
             samples.append({"table": tab.tolist()})
 
+    if child is not None:
+        _jit_collect(rec, child)
+        jit = "main pass with numba JIT disabled (njit builders run as Python) + the quick catalogue pass repeated in a child process with JIT enabled"
+    else:
+        jit = "numba JIT enabled"
+
     bound = (f"{len(cat)} catalogue meshes (small, renumbered, closed, random; tier {tier}) x {len(ORDERS)} first-access orders + builders, "
              f"{len(extra)} meshes with two extra all-padding columns, {len(pairs_)} interleaved grid pairs, and {scope} "
              f"standard-form tables with <=2 faces, <=4 corners, 5 nodes ({nt} tables x 3 access orders + builders); Euler count on the closed "
-             f"catalogue meshes; numba JIT as set by the driver (disabled: njit builders run as Python)")
+             f"catalogue meshes; {jit}")
     return result(rec.cases, len(distinct), rec.failures, bound, samples)
+
+
+def edges(tier, seed):
+    child = _jit_start(seed) if _jit_disabled() else None
+    try:
+        return _edges(tier, seed, child)
+    except BaseException:
+        if child is not None and child.poll() is None:
+            child.kill()
+        raise
